@@ -36,6 +36,7 @@ class PathMgr:
         self._mro_cache: Dict[int, set] = {}
         # per-verification-task
         self.pending: List[List[int]] = []
+        self.fast_feasibility = False
         self.stats = dict(paths=0, branches=0, feas_checks=0, solver_s=0.0, obligations=0)
         self.site_counts: Dict[str, int] = {}
         self.obligations: List[Obligation] = []
@@ -131,7 +132,7 @@ class PathMgr:
         self.global_cache: Dict[Any, Any] = {}
         self.writes: List[Tuple[str, Any, str]] = []   # (field, ref id term, where)
         self.solver = z3.Solver()
-        self.solver.set('timeout', 600)
+        self.solver.set('timeout', 300 if self.fast_feasibility else 600)
         self._solver_bg = 0
         self._bg_n = 0
         self._bg_set: set = set()
@@ -233,8 +234,8 @@ class PathMgr:
             mdl = s.model()
         if extra is not None:
             s.pop()
-        if r == z3.unknown:
-            # z3's incremental core gives up on queries its one-shot pipeline decides quickly
+        if r == z3.unknown and not self.fast_feasibility:
+            # z3's incremental core gives up on queries its one-shot pipeline decides
             s2 = z3.Solver()
             s2.set('timeout', 8000)
             s2.add(*self.background())
@@ -245,6 +246,8 @@ class PathMgr:
             self.stats['fresh_fallbacks'] = self.stats.get('fresh_fallbacks', 0) + 1
             if r == z3.sat:
                 mdl = s2.model()
+        # with fast_feasibility (heavy batch functions) `unknown` within the short budget counts as feasible:
+        # only quick UNSAT answers prune (an infeasible path merely yields vacuously discharged obligations)
         if mdl is not None:
             self.model_cache.append(mdl)
             if len(self.model_cache) > 6:
@@ -309,7 +312,7 @@ class PathMgr:
         if self.pos < len(self.decisions):
             d = self.decisions[self.pos]
         else:
-            if False and self.lazy_branching and len(live) == 2:
+            if False and getattr(self, 'summarising', False) and len(live) == 2:
                 # inside a merged (pure) clause: both sides are explored without asking the solver; an
                 # infeasible side only contributes an unsatisfiable disjunct to the merged formula
                 feas = live
@@ -600,7 +603,7 @@ class PathMgr:
             if z3.is_app(a) and a.decl().kind() == z3.Z3_OP_SELECT:
                 a = a.arg(0)
             return z3.is_const(a) and a.decl().kind() == z3.Z3_OP_UNINTERPRETED and a.decl().name().startswith('H_')
-        if k == z3.Z3_OP_SEQ_NTH:
+        if k == z3.Z3_OP_SEQ_NTH or (k == z3.Z3_OP_UNINTERPRETED and v.decl().name() == 'elem_at'):
             a = v.arg(0)
             return z3.is_app(a) and a.decl().kind() == z3.Z3_OP_SELECT and z3.is_const(a.arg(0)) \
                 and a.arg(0).decl().name() == 'H_seq'
